@@ -5,6 +5,7 @@ import (
 	"fmt"
 	"io/ioutil"
 	"os"
+	"reflect"
 
 	"github.com/jessevdk/go-flags/simrt"
 )
@@ -115,5 +116,35 @@ func (sc *Scenario) payloadSummary() interface{} {
 		}
 		return c
 	}
+	for _, pl := range []interface{}{sc.C09, sc.C04, sc.C05, sc.C12} {
+		if !reflect.ValueOf(pl).IsNil() {
+			var generic interface{}
+			if json.Unmarshal([]byte(mustJSON(pl)), &generic) == nil {
+				return clipStrings(generic)
+			}
+		}
+	}
 	return sc.Aux
+}
+
+// clipStrings shortens long strings inside a decoded JSON value (evidence samples).
+func clipStrings(v interface{}) interface{} {
+	switch x := v.(type) {
+	case string:
+		return clip(x, 160)
+	case []interface{}:
+		if len(x) > 40 {
+			x = x[:40]
+		}
+		for i := range x {
+			x[i] = clipStrings(x[i])
+		}
+		return x
+	case map[string]interface{}:
+		for k := range x {
+			x[k] = clipStrings(x[k])
+		}
+		return x
+	}
+	return v
 }
